@@ -98,7 +98,7 @@ FAMILIES = {
     "C42": ["catchsched"],
     "C09": ["guard", "op"],
     "C30": ["tramp"],
-    "C35": ["periodic", "catchsched"],
+    "C35": ["periodic", "catchsched", "srcwire"],
     "C37": ["srcfac", "srcwire"],
     "C10": ["seqcomp", "op"],
     "C24": ["mcast"],
@@ -111,7 +111,7 @@ FAMILIES = {
     "C07": ["slice"],
     "C11": ["op", "flatwire"],
     "C12": ["op", "flatwire"],
-    "C13": ["op"],
+    "C13": ["op", "srcwire"],
     "C16": ["op", "timedextra", "grouping"],
     "C17": ["op", "seqlemma", "timedextra"],
     "C28": ["vts"],
